@@ -505,10 +505,45 @@ class Reach:
             self.undecided.add(" ".join(u(expr).split())[:80])
             return None
 
+    def leaves(self, stmts, atom):
+        """some statement of the block raises / returns under the model (break and continue stay inside the enclosing loop)"""
+        for s in stmts:
+            if isinstance(s, (ast.Raise, ast.Return)):
+                return True
+            if isinstance(s, (ast.Break, ast.Continue)):
+                return False
+            if isinstance(s, ast.If):
+                c = self.test(s.test, atom)
+                if c is True:
+                    if self.leaves(s.body, atom):
+                        return True
+                    continue
+                if c is False:
+                    if self.leaves(s.orelse, atom):
+                        return True
+                    continue
+                return False          # undecided: may be either - not a definite exit
+        return False
+
     def falls_through(self, stmts, atom):
         for s in stmts:
             if isinstance(s, (ast.Raise, ast.Return, ast.Break, ast.Continue)):
                 return False
+            if isinstance(s, ast.For) and isinstance(s.target, ast.Name):
+                # a loop over a model collection: an element for which the body definitely raises / returns ends the function there
+                try:
+                    seq = AEval(atom).ev(s.iter)
+                except Exception:
+                    seq = None
+                if isinstance(seq, (tuple, list)):
+                    for item in seq:
+                        def atom_i(node, item=item, name=s.target.id):
+                            if isinstance(node, ast.Name) and node.id == name:
+                                return item
+                            return atom(node)
+                        if self.leaves(s.body, atom_i):
+                            return False
+                continue
             if isinstance(s, ast.If):
                 c = self.test(s.test, atom)
                 a = self.falls_through(s.body, atom) if c is not False else False
